@@ -238,3 +238,50 @@ func VerifC02_UnzipStaysInside() {
 	}
 	verif.Assert("handles_balanced", rec.opens == rec.closes)
 }
+
+// VerifC02_UnzipNonUTF8Names: entry names that are not valid UTF-8 go through
+// the charset detection / conversion step after the sanitiser has accepted
+// them; whatever that step makes of the name, nothing outside the destination
+// may be touched. One entry named over {'.', '/', 'x', 0xFE}.
+func VerifC02_UnzipNonUTF8Names() {
+	maxLen := 4
+	if verif.Tier() > 0 {
+		maxLen = 6
+	}
+	name := vNameFromAlphabet("n", maxLen, "./x\xfe")
+	verif.Assume(name != "")
+	hasHigh := false
+	for i := 0; i < len(name); i++ {
+		if name[i] == 0xfe {
+			hasHigh = true
+		}
+	}
+	verif.Assume(hasHigh) // the valid names are the other harness's subject
+	archive := vBuildZip([]vEntry{{name: name, content: []byte("x"), declared: -1}})
+	rec := newRecFs(afero.NewMemMapFs())
+	fs := NewVirtualFileSystem(rec, InMemoryFS, IdentityPathConverterFunc)
+	// what the charset detection makes of a name depends on the whole path: short, letter-poor ones included
+	dest := []string{"/out/d", "/out", "/d"}[verif.Choice("dest", 3)]
+	verif.Assert("setup", fs.MkDir("/src") == nil && fs.MkDir(dest) == nil && fs.WriteFile("/src/a.zip", archive, 0o644) == nil)
+	verif.Assert("setup", fs.WriteFile("/keep", []byte("k"), 0o644) == nil)
+	before := vSnapshot(rec.inner, "/")
+	rec.reset()
+	_, err := fs.UnzipWithContextAndLimits(context.Background(), "/src/a.zip", dest, NoLimits())
+	for _, op := range rec.mutations() {
+		verif.Assert("mutations_stay_inside_destination", vPathInside(dest, filepath.Clean(op.path)))
+	}
+	var outsideBefore, outsideAfter []vNode
+	for _, n := range before {
+		if !vPathInside(dest, n.path) {
+			outsideBefore = append(outsideBefore, n)
+		}
+	}
+	for _, n := range vSnapshot(rec.inner, "/") {
+		if !vPathInside(dest, n.path) {
+			outsideAfter = append(outsideAfter, n)
+		}
+	}
+	verif.Assert("outside_untouched", vSameTree(outsideBefore, outsideAfter))
+	verif.Observe("err", err != nil)
+	verif.Assert("handles_balanced", rec.opens == rec.closes)
+}
